@@ -181,7 +181,7 @@ class RxnWorld(BaseWorld):
     def gen(self, rngs):
         r = rngs.args
         ops = ['new_rxn', 'react', 'react', 'react', 'react', 'edit_rxn', 'warm', 'set_flows', 'restart', 'proxy',
-               'react_array', 'over_conversion', 'derive_rxn', 'stoich_feed', 'stoich_feed']
+               'react_array', 'over_conversion', 'derive_rxn', 'stoich_feed', 'stoich_feed', 'member_basis']
         for _ in range(30):
             op = rngs.sched.choice(ops)
             ev = None
@@ -232,6 +232,19 @@ class RxnWorld(BaseWorld):
                 else:
                     vals = [r.choice(FLOWS) for _ in range(n)]
                 ev = {'op': op, 'rxn': rn, 'values': vals}
+            elif op == 'member_basis':
+                # another owner switches the basis of ONE member of a reaction system in place and applies the system
+                # before switching it back: the system must either refuse or still do what its stoichiometry says
+                systems = [n for n in sorted(self.rxns) if self.rxns[n][1]['kind'] == 'system']
+                if not systems:
+                    continue
+                rn = r.choice(systems)
+                spec = self.rxns[rn][1]
+                cands = [n for n in sorted(self.streams)
+                         if isinstance(self.streams[n], tmo.MultiStream) == spec['tagged']]
+                if not cands:
+                    continue
+                ev = {'op': op, 'rxn': rn, 'member': r.randint(1, 3), 'stream': r.choice(cands)}
             elif op == 'derive_rxn':
                 if not self.rxns or len(self.rxns) >= 7:
                     continue
@@ -313,6 +326,11 @@ class RxnWorld(BaseWorld):
             return (ev['phase'] is not None) == isinstance(s, tmo.MultiStream)
         if op == 'proxy':
             return ev['new'] not in self.streams
+        if op == 'member_basis':
+            spec = self.rxns[ev['rxn']][1]
+            if spec['kind'] != 'system':
+                return False
+            return isinstance(self.streams[ev['stream']], tmo.MultiStream) == spec['tagged']
         if op == 'derive_rxn':
             spec = self.rxns[ev['rxn']][1]
             if ev['name'] in self.rxns:
@@ -473,6 +491,25 @@ class RxnWorld(BaseWorld):
             item.X = ev['X']
             spec['members'][ev['index']]['X'] = ev['X']
         return 'ok'
+
+    def do_member_basis(self, ev):
+        obj, spec = self.rxns[ev['rxn']]
+        members = [m for m in obj.reactions if type(m) is tmo.Reaction]
+        if not members:
+            return 'skip:no-plain-member'
+        m = members[ev['member'] % len(members)]
+        old = m.basis
+        new = 'wt' if old == 'mol' else 'mol'
+        try:
+            m.basis = new
+        except Exception as e:
+            self.stats[f'exc:member_basis:{type(e).__name__}'] += 1
+            return 'exc'
+        self.stats['fault:member_basis_switched_under_a_system'] += 1
+        try:
+            return self.do_react({'op': 'react', 'rxn': ev['rxn'], 'stream': ev['stream'], 'force': False})
+        finally:
+            m.basis = old
 
     def do_derive_rxn(self, ev):
         """A copy of a reaction (or of an item of a set) is a reaction of its own: later in-place edits of
@@ -778,7 +815,7 @@ class RxnWorld(BaseWorld):
         return out
 
     def shared_touch(self, ev):
-        return ev.get('op') if ev.get('op') in ('react', 'edit_rxn', 'derive_rxn', 'stoich_feed') else None
+        return ev.get('op') if ev.get('op') in ('react', 'edit_rxn', 'derive_rxn', 'stoich_feed', 'member_basis') else None
 
 
 def _restart(stream, pid):
